@@ -71,8 +71,20 @@ def gen_case(rng, coarse=False):
     nw = int(max(1, round(200.0 / (lw * f0) * rng.choice([0.5, 0.99, 1.01, 2.0]))))
     eps = [0.25, 0.2, 0.15, 0.1, 0.05][min(4, sum(f0 >= e for e in (0.2, 0.5, 1.0, 2.0)))]
     fn_std = float(eps * f0 * rng.choice([0.5, 0.98, 1.02, 2.0]))
-    rk = str(rng.choice(["none", "none", "low", "high", "both", "on-sample"]))
+    rk = str(rng.choice(["none", "none", "low", "high", "both", "on-sample", "excludes-main-peak", "excludes-main-peak"]))
     lo = hi = None
+    if rk == "excludes-main-peak":
+        # the dominant peak lies OUTSIDE the range: the verdicts must be those of the highest peak inside it
+        side = rng.random() < 0.5
+        c = float(np.exp(rng.uniform(np.log(1.6), np.log(6.0))))
+        lf2 = np.log(f / (f0 * c if side else f0 / c))
+        mean = mean + 0.45 * (a0 - base) * np.exp(-0.5 * (lf2 / 0.12) ** 2)      # a clear secondary peak inside the range
+        if side:
+            lo = float(f0 * 1.25)
+            hi = None if rng.random() < 0.6 else float(f[-1] * 2)
+        else:
+            hi = float(f0 / 1.25)
+            lo = None if rng.random() < 0.6 else float(f[0] / 2)
     if rk in ("low", "both"):
         lo = float(f0 / rng.uniform(1.5, 8))
     if rk in ("high", "both"):
